@@ -12,7 +12,7 @@ RULE = ("envelopes and bare metadata (floats, non-ASCII, lone surrogates, deep n
         "step: file bytes vs the model's serialization and the independent serializer, loaded value vs in-memory value, earlier entries unchanged, and "
         "the verdicts of verify_signable (every threshold, both modes) before/after.  non-trivial = sequence with >= 1 added signature; distinct by (value, ops)")
 
-THEOREMS = ["load_write", "written_canonical", "cycles_preserve_bytes", "add_signature_preserves_others", "add_signature_keeps_counting", "write_over_anything", "write_frame", "write_then_load", "signFile_frame"]
+THEOREMS = ["load_write", "written_canonical", "cycles_preserve_bytes", "add_signature_preserves_others", "add_signature_keeps_counting", "write_over_anything", "write_frame", "write_then_load", "signFile_frame", "member_order_irrelevant"]
 
 
 def verdicts(impl, env, auth):
